@@ -1,8 +1,10 @@
 (* Correspondence for C07: the FOps instance of Render/Octree.v (processCube / isEmpty / dcache3 and
    the 2D twin) against what the real octree / quadtree code did on the same lattice:
-     - the emitted triangles / segments, in order, bit for bit;
-     - the sequence of lattice points at which the SDF was called (= cache misses, in order);
-     - the hdiag table, bit for bit;
+     - the emitted triangles / segments, in order (bit for bit on the unchanged tree; a difference of at
+       most 1e-12 of the lattice size still counts as agreement, so that a harmless algebraic rewrite
+       of the Go code raises no alarm, and is reported separately as I_...);
+     - the sequence of lattice points at which the SDF was called (= cache misses, in order), exactly;
+     - the hdiag table (same tolerance rule);
      - (inside Coq) the model's output equals, as a multiset, the evaluation of every finest cell of
        the lattice in row-major order;
    and the lattice of the real renderers (origin, half resolution) against Sample.mco_lattice, with
@@ -21,6 +23,18 @@ Definition same2 (a : V2 FOps) (g : f2) : bool := let '(x, y) := g in fsame (vx 
 Definition eq3 (a b : V3 FOps) : bool := fsame (wx a) (wx b) && fsame (wy a) (wy b) && fsame (wz a) (wz b).
 Definition eq2 (a b : V2 FOps) : bool := fsame (vx a) (vx b) && fsame (vy a) (vy b).
 
+(* agreement of positions up to a harmless algebraic rewrite of the Go code: 1e-12 of the size of the lattice *)
+Definition closeS (sc a b : float) : bool :=
+  fsame a b || PrimFloat.leb (PrimFloat.abs (a - b)) (0x1.19799812dea11p-40 * sc)%float.
+Definition close3 (sc : float) (a : V3 FOps) (g : f3) : bool :=
+  let '(x, y, z) := g in closeS sc (wx a) x && closeS sc (wy a) y && closeS sc (wz a) z.
+Definition close2 (sc : float) (a : V2 FOps) (g : f2) : bool :=
+  let '(x, y) := g in closeS sc (vx a) x && closeS sc (vy a) y.
+Definition size3 (org : f3) (ext : float) : float :=
+  let '(x, y, z) := org in (PrimFloat.abs x + PrimFloat.abs y + PrimFloat.abs z + PrimFloat.abs ext)%float.
+Definition size2 (org : f2) (ext : float) : float :=
+  let '(x, y) := org in (PrimFloat.abs x + PrimFloat.abs y + PrimFloat.abs ext)%float.
+
 Fixpoint all2 {A B} (f : A -> B -> bool) (l : list A) (m : list B) : bool :=
   match l, m with
   | [], [] => true
@@ -29,9 +43,12 @@ Fixpoint all2 {A B} (f : A -> B -> bool) (l : list A) (m : list B) : bool :=
   end.
 Definition tri_same (m : V3 FOps * V3 FOps * V3 FOps) (g : f3 * f3 * f3) : bool :=
   let '(a, b, c) := m in let '(ga, gb, gc) := g in same3 a ga && same3 b gb && same3 c gc.
+Definition tri_close (sc : float) (m : V3 FOps * V3 FOps * V3 FOps) (g : f3 * f3 * f3) : bool :=
+  let '(a, b, c) := m in let '(ga, gb, gc) := g in close3 sc a ga && close3 sc b gb && close3 sc c gc.
 Definition tri_eq (s t : V3 FOps * V3 FOps * V3 FOps) : bool :=
   let '(a, b, c) := s in let '(a', b', c') := t in eq3 a a' && eq3 b b' && eq3 c c'.
 Definition seg_same (m : V2 FOps * V2 FOps) (g : f2 * f2) : bool := same2 (fst m) (fst g) && same2 (snd m) (snd g).
+Definition seg_close (sc : float) (m : V2 FOps * V2 FOps) (g : f2 * f2) : bool := close2 sc (fst m) (fst g) && close2 sc (snd m) (snd g).
 Definition seg_eq (s t : V2 FOps * V2 FOps) : bool := eq2 (fst s) (fst t) && eq2 (snd s) (snd t).
 (* equal as multisets *)
 Definition msame {A} (eqb : A -> A -> bool) (l m : list A) : bool :=
@@ -46,43 +63,51 @@ Definition tab2 (n : Z) (vals : list float) (p : pt2) : float :=
 (* ---- octree case: id, origin, resolution, m (top cube has Go level m+1, side 2^(m+1) lattice units),
    values at the (2^(m+1)+1)^3 lattice points, go triangles, go sequence of SDF calls, go hdiag table *)
 Definition ocase3 := (N * f3 * float * nat * list float * list (f3 * f3 * f3) * list pt * list float)%type.
-Definition ook3 (c : ocase3) : bool :=
+(* (agreement up to rewrites, bit-exact agreement): the first component decides, the second is reported *)
+Definition ook3 (c : ocase3) : bool * bool :=
   let '(id, org, res, m, vals, gt, gs, gh) := c in
   let n := pow2 (S m) in
   let fv := tab3 n vals in
+  let sc := size3 org (@ofZ FOps n * res)%float in
   let '(tris, cache) := @octree_st FOps (v3of org) res fv m (0, 0, 0)%Z [] in
-  all2 tri_same tris gt &&
-  all2 pt_eqb (rev (map fst cache)) gs &&
-  all2 fsame (@hdiag3_table FOps res (S (S m))) gh &&
-  msame tri_eq tris (flat_map (@oct_cell FOps (v3of org) res fv) (cells_row_major m (0, 0, 0)%Z)).
-Definition omismatches3 (cs : list ocase3) : list N :=
-  map (fun c : ocase3 => let '(id, _, _, _, _, _, _, _) := c in id) (filter (fun c => negb (ook3 c)) cs).
+  let discrete :=
+    all2 pt_eqb (rev (map fst cache)) gs &&
+    msame tri_eq tris (flat_map (@oct_cell FOps (v3of org) res fv) (cells_row_major m (0, 0, 0)%Z)) in
+  (discrete && all2 (tri_close sc) tris gt && all2 fclose (@hdiag3_table FOps res (S (S m))) gh,
+   discrete && all2 tri_same tris gt && all2 fsame (@hdiag3_table FOps res (S (S m))) gh).
+Definition oid3 (c : ocase3) : N := let '(id, _, _, _, _, _, _, _) := c in id.
+Definition omismatches3 (cs : list ocase3) : list N := map oid3 (filter (fun c => negb (fst (ook3 c))) cs).
+Definition oinexact3 (cs : list ocase3) : list N := map oid3 (filter (fun c => negb (snd (ook3 c))) cs).
 
 Definition ocase2 := (N * f2 * float * nat * list float * list (f2 * f2) * list pt2 * list float)%type.
-Definition ook2 (c : ocase2) : bool :=
+Definition ook2 (c : ocase2) : bool * bool :=
   let '(id, org, res, m, vals, gt, gs, gh) := c in
   let n := pow2 (S m) in
   let fv := tab2 n vals in
+  let sc := size2 org (@ofZ FOps n * res)%float in
   let '(segs, cache) := @quadtree_st FOps (v2of org) res fv m (0, 0)%Z [] in
-  all2 seg_same segs gt &&
-  all2 pt2_eqb (rev (map fst cache)) gs &&
-  all2 fsame (@hdiag2_table FOps res (S (S m))) gh &&
-  msame seg_eq segs (flat_map (@quad_cell FOps (v2of org) res fv) (cells2_row_major m (0, 0)%Z)).
-Definition omismatches2 (cs : list ocase2) : list N :=
-  map (fun c : ocase2 => let '(id, _, _, _, _, _, _, _) := c in id) (filter (fun c => negb (ook2 c)) cs).
+  let discrete :=
+    all2 pt2_eqb (rev (map fst cache)) gs &&
+    msame seg_eq segs (flat_map (@quad_cell FOps (v2of org) res fv) (cells2_row_major m (0, 0)%Z)) in
+  (discrete && all2 (seg_close sc) segs gt && all2 fclose (@hdiag2_table FOps res (S (S m))) gh,
+   discrete && all2 seg_same segs gt && all2 fsame (@hdiag2_table FOps res (S (S m))) gh).
+Definition oid2 (c : ocase2) : N := let '(id, _, _, _, _, _, _, _) := c in id.
+Definition omismatches2 (cs : list ocase2) : list N := map oid2 (filter (fun c => negb (fst (ook2 c))) cs).
+Definition oinexact2 (cs : list ocase2) : list N := map oid2 (filter (fun c => negb (snd (ook2 c))) cs).
 
 (* ---- lattice of the real octree renderer: id, bounding box, meshCells, observed origin (first
    corner ever evaluated is not needed: the harness reads bb.Min of the scaled box), observed
    half resolution, observed number of levels *)
 Definition lcase3 := (N * f3 * f3 * Z * f3 * float * nat)%type.
-Definition lok3 (c : lcase3) : bool :=
+Definition lok3 (c : lcase3) : bool * bool :=
   let '(id, mn, mx, cells, gorg, gres, levels) := c in
   let '(org, res, long) := @mco_lattice FOps (mkBox3 (v3of mn) (v3of mx)) cells in
-  same3 org gorg && fsame res gres &&
   (* levels_cover: 2^(levels-1) * res >= longAxis, exactly *)
-  Qle_bool (F2Q long) (inject_Z (pow2 (levels - 1)) * F2Q res).
-Definition lmismatches3 (cs : list lcase3) : list N :=
-  map (fun c : lcase3 => let '(id, _, _, _, _, _, _) := c in id) (filter (fun c => negb (lok3 c)) cs).
+  let cover := Qle_bool (F2Q long) (inject_Z (pow2 (levels - 1)) * F2Q res) in
+  (cover && close3 (size3 mn long) org gorg && fclose res gres, cover && same3 org gorg && fsame res gres).
+Definition lid3 (c : lcase3) : N := let '(id, _, _, _, _, _, _) := c in id.
+Definition lmismatches3 (cs : list lcase3) : list N := map lid3 (filter (fun c => negb (fst (lok3 c))) cs).
+Definition linexact3 (cs : list lcase3) : list N := map lid3 (filter (fun c => negb (snd (lok3 c))) cs).
 
 (* the 2D renderer: same statements with Box2 *)
 Definition mqo_lattice (bb0 : Box2 FOps) (meshCells : Z) : V2 FOps * float * float :=
@@ -91,10 +116,11 @@ Definition mqo_lattice (bb0 : Box2 FOps) (meshCells : Z) : V2 FOps * float * flo
   let longAxis := @v2maxcomp FOps (box2_size bb) in
   (b2min bb, (@half FOps * resolution)%float, longAxis).
 Definition lcase2 := (N * f2 * f2 * Z * f2 * float * nat)%type.
-Definition lok2 (c : lcase2) : bool :=
+Definition lok2 (c : lcase2) : bool * bool :=
   let '(id, mn, mx, cells, gorg, gres, levels) := c in
   let '(org, res, long) := mqo_lattice (mkBox2 (v2of mn) (v2of mx)) cells in
-  same2 org gorg && fsame res gres &&
-  Qle_bool (F2Q long) (inject_Z (pow2 (levels - 1)) * F2Q res).
-Definition lmismatches2 (cs : list lcase2) : list N :=
-  map (fun c : lcase2 => let '(id, _, _, _, _, _, _) := c in id) (filter (fun c => negb (lok2 c)) cs).
+  let cover := Qle_bool (F2Q long) (inject_Z (pow2 (levels - 1)) * F2Q res) in
+  (cover && close2 (size2 mn long) org gorg && fclose res gres, cover && same2 org gorg && fsame res gres).
+Definition lid2 (c : lcase2) : N := let '(id, _, _, _, _, _, _) := c in id.
+Definition lmismatches2 (cs : list lcase2) : list N := map lid2 (filter (fun c => negb (fst (lok2 c))) cs).
+Definition linexact2 (cs : list lcase2) : list N := map lid2 (filter (fun c => negb (snd (lok2 c))) cs).
